@@ -17,7 +17,8 @@ OpSeq   == SetToSeq(OpSet)
 Out(o) ==
     LET e == Effect(o, Rem, yls) IN
     IF e.ok
-    THEN [o |-> o, ok |-> 1, lo |-> lo + e.cs, hi |-> hi - e.ce, so |-> NewSo(o, e), dir |-> DirOf(o.op),
+    THEN [o |-> o, ok |-> 1, lo |-> lo + e.cs, hi |-> hi - e.ce, so |-> NewSo(o, e),
+          dir |-> IF PmUnchanged(o, e) THEN dir ELSE DirOf(o.op),
           ret |-> IF Returns(o.op) THEN e.ret ELSE 0]
     ELSE [o |-> o, ok |-> 0, off |-> ErrOf(o, e).off, dir |-> ErrOf(o, e).dir,
           \* the error kind is part of the property only for the split / rsplit protocol
